@@ -384,7 +384,10 @@ class Exec:
         else:
             end_state = ref.flow(plan["intervals"], plan["end"])
             self.sim_time += plan["end"] - ref.T
-            ref.y = end_state[0]
+            # the next segment starts from the previous segment's REPORTED final state (already
+            # judged above): re-basing keeps integrator error from accumulating over a history,
+            # which matters for growing solutions (dx/dt = kx, k > 0)
+            ref.y = new_v[-1].copy() if len(new_v) and float(new_t[-1]) == plan["end"] else end_state[0]
             ref.T = plan["end"]
             ref.p = dict(plan["intervals"][-1][2])
             ref.empty = False
